@@ -251,6 +251,7 @@ def part_c(ctx, corr):
                     init0(context)
                     context.bars_seen = 0
                     context.flag = False
+                    context.positions_at_init = len(context.portfolio.positions)       # the mapping is touched before the state is restored
                     env = Environment.get_instance()
                     log = lambda name: (lambda c, b: tr.events.append(("SCHEDULED", {"cal": env.calendar_dt, "rule": name, "bars_seen": c.bars_seen})))
                     api.scheduler.run_daily(log("daily"))
@@ -266,7 +267,10 @@ def part_c(ctx, corr):
                     if ids_:
                         live = [i for i in ids_ if env.data_proxy.instrument(i).listed_at(env.trading_dt)] if hasattr(env.data_proxy.instrument(ids_[0]), "listed_at") else ids_
                         api.update_universe(live[: 1 + context.bars_seen % max(1, len(live))] or live[:1])
-                    tr.events.append(("UNIVERSE_ORDER", {"cal": env.calendar_dt, "keys": list(bar_dict.keys()), "bars_seen": context.bars_seen, "flag": context.flag}))
+                    held_map = {k_: v_.quantity for k_, v_ in context.portfolio.positions.items() if v_.quantity}
+                    held_api = {p_.order_book_id: p_.quantity for p_ in api.get_positions() if p_.quantity and p_.direction.name == "LONG"}
+                    tr.events.append(("UNIVERSE_ORDER", {"cal": env.calendar_dt, "keys": list(bar_dict.keys()), "bars_seen": context.bars_seen, "flag": context.flag,
+                                                         "portfolio_positions": sorted(held_map.items()), "get_positions_long": sorted(held_api.items())}))
                     hb0(context, bar_dict)
                 return dict(handlers, init=init, handle_bar=handle_bar)
             return trading.run_trading(random.Random(1), S, kk, reseed_key="c14-%d" % seed, analyser=an, script=script)
